@@ -1076,7 +1076,7 @@ theorem getItem_idList_error {d : PhaseList} (l : List Int) (e : XErr) (h : getI
   · simp only [h1, Bool.false_eq_true, if_false, Except.error.injEq] at h
     refine ⟨h.symm, Or.inr ?_⟩
     by_contra hcon
-    push_neg at hcon
+    push Not at hcon
     apply h1
     rw [List.all_eq_true]
     intro k hk
